@@ -127,6 +127,8 @@ def compare_system(rec, fd, d, mfa, route, param_truth=None, sig=""):
                     bad("stock-solver-differs-from-definition", stock=s["name"], got=st.solver, expected=s["solver"])
                 if st.time_letter != s["time_letter"]:
                     bad("stock-time-letter-differs", stock=s["name"])
+                if s["lm"] is not None and st.lifetime_model.time_letter != s["time_letter"]:
+                    bad("stock-lifetime-model-time-letter-differs", stock=s["name"], got=st.lifetime_model.time_letter, expected=s["time_letter"])
                 if (st.process.name if st.process is not None else None) != s["process"]:
                     bad("stock-process-differs", stock=s["name"], got=st.process.name if st.process else None, expected=s["process"])
                 if st.process is not None and st.process.id != d.processes.index(s["process"]):
@@ -341,13 +343,16 @@ def refusals(rec, hub, rng, d):
 def one(rec, hub, seed, tier, i, tmpdir):
     fd = hub.fd
     rng = case_nprng(seed, "c18.system", 0, i)
-    d = SY.gen_def(rng, hostile_names=(tier == "thorough"))
-    # distinct flow names (the statement's domain): overrides for parallel edges are generated by gen_def
     which = i % 3
+    d = SY.gen_def(rng, hostile_names=(tier == "thorough"), time_letter_variants=0.0 if which == 0 and i % 2 == 0 else 0.35, vary_items=True)
+    # distinct flow names (the statement's domain): overrides for parallel edges are generated by gen_def
     if which == 0:
         mfa = SY.build_system(fd, d)
         compare_system(rec, fd, d, mfa, "helpers")
-        refusals(rec, hub, rng, d)
+        if any(l == "t" and n == "time" for l, n, it, dt in d.dims):
+            refusals(rec, hub, rng, d)  # written for a time dimension lettered 't'
+        else:
+            refusals(rec, hub, rng, SY.gen_def(rng))
     elif which == 1:
         files_case(rec, hub, rng, tier, d, tmpdir, i)
     else:
